@@ -15,8 +15,9 @@ cargo nextest run --workspace --no-fail-fast --offline > seeded_out/suite_with.l
 echo "suite with change: $(grep -E 'Summary' seeded_out/suite_with.log | tail -1)" >> $out
 grep -E "^\s+FAIL" seeded_out/suite_with.log | sort -u | head -10 >> $out
 # no `git stash` here: the stash is shared by all worktrees of the repository
+git add -N avro/src avro_derive/src      # new source files belong to the change
 git diff -- avro/src avro_derive/src > seeded_out/patch.verified.diff
-git checkout -q -- avro/src avro_derive/src
+git apply -R seeded_out/patch.verified.diff
 cargo test -p apache-avro --test "$demo" --offline > seeded_out/demo_without.log 2>&1
 echo "demo without change: exit $? ($(grep -E '^test result' seeded_out/demo_without.log | head -1))" >> $out
 git apply seeded_out/patch.verified.diff
